@@ -500,6 +500,15 @@ pub fn factory_migrate_world(kind: FactoryKind) -> Result<World, String> {
         wasm_admin: Some("fadmin".to_string()),
     };
     govern(&mut w, kind, &factory, None)?;
+    // nothing is created in this world: governance has also frozen the factory, so a
+    // user message that un-freezes it (or resets anything to its default) shows
+    let fr = crate::c18::upd_json(kind, &crate::c18::Upd { frozen: Some(true), ..Default::default() });
+    sudo_json(&mut w.app, &factory, &fr).map_err(|e| format!("governance freeze: {}", e))?;
+    let p = q_params(&w.app, &factory)?;
+    if p.get("frozen").and_then(|b| b.as_bool()) != Some(true) {
+        return Err("governance freeze did not take effect".into());
+    }
+    w.gov_params = Some(p.to_string());
     Ok(w)
 }
 
